@@ -20,11 +20,11 @@ pub fn get() -> FunctionDefinitions {
                 match self.0.apply(value, 0) {
                     Some(JsonValue::Array(list)) => {
                         let mut str = String::new();
-                        for t in list {
+                        for (index, t) in list.into_iter().enumerate() {
                             let t: Result<String, _> = t.try_into();
                             match t {
                                 Ok(to_add) => {
-                                    if !str.is_empty() {
+                                    if index != 0 {
                                         str.push_str(sepetator.as_str());
                                     }
                                     str.push_str(to_add.as_str());
